@@ -27,7 +27,9 @@
 //! Receivers: an actor with an R/RF op is spawned with `spawn_instant` before the first
 //! operation, its pre_start parked (status Starting) until R/RF; an actor with an SS op is
 //! spawned by that op; every other actor is spawned and Running before the first operation.
-//! stdout: one Coq term per scenario: the received items per subscription, `[[..]; [..]]`.
+//! stdout: one Coq term per scenario: the received items per subscription, `[[..]; [..]]`, or
+//! `Blocked` when the driver did not come back within the watchdog bound (each scenario runs on its
+//! own OS thread), or `Panicked`.
 use std::collections::{BTreeMap, HashSet};
 use std::sync::{Arc, Mutex};
 use std::time::Duration;
@@ -340,35 +342,71 @@ fn rt() -> tokio::runtime::Runtime {
     tokio::runtime::Builder::new_current_thread().enable_time().start_paused(true).build().expect("runtime")
 }
 
+/// Run one scenario on its own OS thread under a wall-clock watchdog: a library change that makes
+/// `OutputPort::send` / `subscribe` spin or block forever must not take the harness down, it is an
+/// observation (`Blocked`) that the oracle rejects.  The bound (RV_WATCHDOG seconds, default 20) is
+/// far above anything the unchanged tree needs (a burst of 5000 takes about 0.02 s).
+fn run_guarded(line: String) -> String {
+    let secs: u64 = std::env::var("RV_WATCHDOG").ok().and_then(|v| v.parse().ok()).unwrap_or(20);
+    let (tx, rx) = std::sync::mpsc::channel();
+    std::thread::spawn(move || {
+        let out = rt().block_on(run_scenario(&line));
+        let _ = tx.send(out);
+    });
+    match rx.recv_timeout(Duration::from_secs(secs)) {
+        Ok(out) => out,
+        Err(std::sync::mpsc::RecvTimeoutError::Timeout) => "Blocked".into(),
+        Err(std::sync::mpsc::RecvTimeoutError::Disconnected) => "Panicked".into(),
+    }
+}
+
 fn main() {
     if std::env::args().any(|a| a == "--nodup") {
         NODUP.store(true, Ordering::Relaxed);
     }
     if std::env::args().any(|a| a == "--cap") {
         // largest burst into a parked forwarder that arrives completely = ring size
-        let count = |n: u64| -> u64 {
-            let out = rt().block_on(run_scenario(&format!("- | S 0 1 0 1 0 ; T ; B 0 {n} ; T")));
-            if out == "[[]]" {
-                0
+        let count = |n: u64| -> Option<u64> {
+            let out = run_guarded(format!("- | S 0 1 0 1 0 ; T ; B 0 {n} ; T"));
+            if out == "Blocked" || out == "Panicked" {
+                None
+            } else if out == "[[]]" {
+                Some(0)
             } else {
-                out.matches(';').count() as u64 + 1
+                Some(out.matches(';').count() as u64 + 1)
             }
         };
         let mut cap = 0u64;
         for n in 1..=256u64 {
-            if count(n) < n {
-                cap = n - 1;
-                break;
+            match count(n) {
+                None => {
+                    println!("blocked {n}");
+                    std::process::exit(0);
+                }
+                Some(c) if c < n => {
+                    cap = n - 1;
+                    break;
+                }
+                _ => {}
             }
         }
-        if cap == 0 && count(4096) < 4096 {
-            cap = 256;
+        if cap == 0 {
+            match count(4096) {
+                None => {
+                    println!("blocked 4096");
+                    std::process::exit(0);
+                }
+                Some(c) if c < 4096 => cap = 256,
+                _ => {}
+            }
         }
         println!("{cap}");
-        return;
+        std::process::exit(0);
     }
     for line in stdin_lines() {
-        let out = rt().block_on(run_scenario(&line));
+        let out = run_guarded(line);
         println!("{out}");
     }
+    // threads of blocked scenarios may still be spinning
+    std::process::exit(0);
 }
